@@ -308,6 +308,34 @@ where
     format!("[{}]", out.join(","))
 }
 
+/// C03 direct oracle on the implementation: every pointer the mutable vector iterators form stays on an
+/// element of the buffer (zero-sized elements: the counters stay non-null), and no element is handed out twice
+fn check_pointers<T: Elem>(base: usize, len: usize, events: &[(u8, usize)], yielded: &[usize]) {
+    let es = std::mem::size_of::<T>();
+    if es == 0 {
+        for (site, addr) in events {
+            if *addr == 0 {
+                flag(format!("null pointer formed at site {site}"));
+            }
+        }
+        return;
+    }
+    for (site, addr) in events {
+        if *addr < base || (*addr - base) % es != 0 || (*addr - base) / es >= len {
+            flag(format!("pointer formed at site {site} is not on an element: offset {} of {len} elements", (*addr as i128 - base as i128) / es as i128));
+        }
+    }
+    let mut seen = std::collections::HashSet::new();
+    for addr in yielded {
+        if *addr < base || (*addr - base) % es != 0 || (*addr - base) / es >= len {
+            flag("a yielded reference points outside the buffer".to_string());
+        }
+        if !seen.insert(*addr) {
+            flag("an element was handed out twice".to_string());
+        }
+    }
+}
+
 fn mutate<T: Elem>(f: i64) -> impl FnMut(&mut T) -> String {
     move |x: &mut T| {
         let shown = x.show();
@@ -1054,13 +1082,25 @@ fn exec<T: Elem>(pool: &mut Pool<T>, op: &WireOp, ctx: &Ctx) -> String {
             need!(pool, *s);
             run_nested(pool[us(*s)].as_ref().unwrap().iter_cols(), script, |e: &T| e.show())
         }
-        (102, [s, f]) => {
+        (102, [s, f]) | (103, [s, f]) => {
             need!(pool, *s);
-            run_nested(pool[us(*s)].as_mut().unwrap().iter_rows_mut(), script, mutate::<T>(*f as i64))
-        }
-        (103, [s, f]) => {
-            need!(pool, *s);
-            run_nested(pool[us(*s)].as_mut().unwrap().iter_cols_mut(), script, mutate::<T>(*f as i64))
+            let m = pool[us(*s)].as_mut().unwrap();
+            let (_, _, _, base, len) = matreex::verif_hooks::raw_parts(m);
+            matreex::verif_hooks::start_ptr_recording();
+            let yielded: RefCell<Vec<usize>> = RefCell::new(Vec::new());
+            let mut mu = mutate::<T>(*f as i64);
+            let show = |x: &mut T| {
+                yielded.borrow_mut().push(x as *mut T as usize);
+                mu(x)
+            };
+            let r = if op.code == 102 {
+                run_nested(m.iter_rows_mut(), script, show)
+            } else {
+                run_nested(m.iter_cols_mut(), script, show)
+            };
+            let events = matreex::verif_hooks::take_ptr_events();
+            check_pointers::<T>(base, len, &events, &yielded.borrow());
+            r
         }
         (104, [s, n]) => {
             need!(pool, *s);
